@@ -5,6 +5,7 @@
 //             (exact dump), bitwise comparison with x, decisions compared at corner + sampled beliefs (POMDP::Policy);
 //   trunc   : EVERY strict byte prefix of text is loaded into a fresh copy of the destination: signal, whether the
 //             destination is bit-identical to before, and the loaded object when the load succeeded;
+//   xload   : the text is offered to destinations of six neighbouring shapes (semantically invalid input);
 //   corrupt : every token × {deleted, duplicated, -1, 1e999, nan, abc, huge index(es), integer+1}: same observations.
 // The driver re-runs the Lean readers/writers on exactly the same bytes and evaluates the property clauses on the
 // implementation's outputs.
@@ -375,6 +376,20 @@ template <class T> static void runKind(const std::string & kind, Rng & rng, Shap
     T x = Gen<T>::make(rng, sh, style);
     T d0 = Gen<T>::make(rng, sh, (int)rng.below(2));
     runObject(kind, rng, sh, x, d0, tier);
+    // semantically invalid input: the same text offered to destinations of other shapes (one more / one fewer state,
+    // action, observation): every such load must be rejected or produce a valid object of the DESTINATION's shape
+    std::ostringstream os; writeTo(os, x);
+    const std::string text = os.str();
+    Shape alts[] = {{sh.S + 1, sh.A, sh.O}, {sh.S, sh.A + 1, sh.O}, {sh.S, sh.A, sh.O + 1},
+                    {sh.S > 1 ? sh.S - 1 : sh.S, sh.A, sh.O}, {sh.S, sh.A > 1 ? sh.A - 1 : sh.A, sh.O}, {sh.S, sh.A, sh.O > 1 ? sh.O - 1 : sh.O}};
+    for (const Shape & s2 : alts) {
+        if (s2.S == sh.S && s2.A == sh.A && s2.O == sh.O) continue;
+        T d1 = Gen<T>::make(rng, s2, (int)rng.below(2));
+        Line l; l << "C17" << "xload" << (kind + " " + std::to_string(s2.S) + " " + std::to_string(s2.A) + " " + std::to_string(s2.O)) << "|" << hexOf(text) << "|";
+        outcome(l, d1, bitsOf(d1), text);
+        l.emit();
+        std::printf("#stat shape_mismatch_loads 1\n");
+    }
 }
 
 // ------------------------------------------------------------------ fixed witnesses (lowest indices)
